@@ -342,6 +342,51 @@ theorem geoQuery_same (mb ru bu so : String) (lon lat r bw bh c : Int) (any : Bo
       normalize (build false (pre ++ P.geoQuery mb ru bu so lon lat r bw bh c any ++ post)) :=
   build_norm _
 
+/-! ### Value encoding of `any` arguments -/
+
+/-- **str_matches_goredis**: for every value of the modelled sum type on which the libraries are
+    expected to agree — nil, string, []byte, every integer kind, float64 (any bit pattern, incl. ±Inf, NaN,
+    -0, 1e21, denormals), bool, time.Time, time.Duration, a BinaryMarshaler that succeeds — the adapter's
+    `str` sends the token go-redis' `WriteArg` sends, modulo numeric spelling (fmt %v vs 'f' -1 64 of the
+    same double) -/
+theorem str_matches_goredis (v : AnyVal) (h : v.common = true) :
+    some (normTok (A.str v)) = (G.appendArg v).map normTok := by
+  cases v <;> simp_all [AnyVal.common, A.str, G.appendArg, normTok]
+
+/-- time.Time is sent as its RFC3339Nano text by both, never as MarshalBinary bytes, although
+    time.Time implements encoding.BinaryMarshaler (the order of the type switch matters) -/
+theorem str_time_is_text (rfc bin : String) : A.str (.time rfc bin) = S rfc ∧ G.appendArg (.time rfc bin) = some (S rfc) :=
+  ⟨rfl, rfl⟩
+
+/-- the whole argv of every `any`-taking method agrees when the value does -/
+theorem any_method_same (m : String) (v : AnyVal) (h : v.common = true) (a g : Out) (hb : bothAny m v = some (a, g)) :
+    a.norm = g.norm := by
+  unfold bothAny at hb
+  split at hb
+  · cases hb
+  · rename_i pre n post _
+    have hv := str_matches_goredis v h
+    cases hg : G.appendArg v with
+    | none => rw [hg] at hv; simp at hv
+    | some gt =>
+      rw [hg] at hv hb
+      simp only [Option.map_some, Option.some.injEq] at hv
+      simp only [Option.some.injEq, Prod.mk.injEq] at hb
+      obtain ⟨rfl, rfl⟩ := hb
+      simp only [Out.norm, Out.argv.injEq, normalize_append, build_norm]
+      simp [normalize, List.map_replicate, hv]
+
+/-- OBSERVATIONS (not failures: outside "same value modulo numeric spelling" only at float32 precision,
+    or types go-redis rejects): float32 — the adapter sends the shortest float32 spelling, go-redis the
+    float64 expansion; net.IP — text vs raw bytes; other types — fmt.Sprint vs "can't marshal" -/
+theorem str_observed_differences :
+    A.str (.f32 0x3dcccccd "0.10000000149011612" "0.1") = S "0.1" ∧
+    G.appendArg (.f32 0x3dcccccd "0.10000000149011612" "0.1") = some (S "0.10000000149011612") ∧
+    A.str (.ip "\x7f\x00\x00\x01" "127.0.0.1") = S "127.0.0.1" ∧
+    G.appendArg (.ip "\x7f\x00\x00\x01" "127.0.0.1") = some (S "\x7f\x00\x00\x01") ∧
+    G.appendArg (.stringer "x") = none ∧ G.appendArg (.marshaler "" "x" false) = none :=
+  ⟨rfl, rfl, rfl, rfl, rfl, rfl⟩
+
 /-- coverage: number of adapter methods with a transcribed reference -/
 theorem coverage_count : covered.length = 104 := by decide
 
